@@ -1059,6 +1059,122 @@ theorem C07_model_cells_survival (E : Env) (base : J) (ld rd : List Op) (ds : Li
   obtain ⟨a, k, lc, rc, xc, h1, h2, h3, h4, _, h6⟩ := C04_model_cells_valid E base ld rd ds L R X 5 hcw hL hR hX h
   exact ⟨a, k, lc, rc, xc, h1, h2, h3, h4, h6⟩
 
+open Merge in
+/-- the merged diff outside `k` does not depend on which side is called local -/
+theorem unionDiff_swap_perm_off (k : String) (ld rd : List Op) (hndL : (ld.map Op.skey).Nodup) (hndR : (rd.map Op.skey).Nodup)
+    (hagree : ∀ el ∈ ld, ∀ er ∈ rd, el.skey = er.skey → el.skey ≠ k → el = er) :
+    ((unionDiff rd ld).filter (fun e => e.skey != k)).Perm ((unionDiff ld rd).filter (fun e => e.skey != k)) := by
+  have nd : ∀ (a b : List Op), (a.map Op.skey).Nodup → (b.map Op.skey).Nodup → ((unionDiff a b).filter (fun e => e.skey != k)).Nodup := by
+    intro a b ha hb
+    apply List.Pairwise.filter
+    unfold unionDiff
+    have ofmap : ∀ (l : List Op), (l.map Op.skey).Nodup → l.Nodup := fun l h =>
+      List.Pairwise.of_map Op.skey (fun x y hne hxy => hne (by rw [hxy])) h
+    refine List.nodup_append.mpr ⟨ofmap a ha, List.Pairwise.filter _ (ofmap b hb), ?_⟩
+    intro x hx y hy hxy
+    subst hxy
+    simp only [List.mem_filter, Bool.not_eq_true', List.contains_eq_mem, decide_eq_false_iff_not] at hy
+    exact hy.2 (List.mem_map_of_mem hx)
+  rw [List.perm_ext_iff_of_nodup (nd rd ld hndR hndL) (nd ld rd hndL hndR)]
+  intro e
+  unfold unionDiff
+  simp only [List.mem_append, List.mem_filter, Bool.not_eq_true', List.contains_eq_mem, decide_eq_false_iff_not, bne_iff_ne, ne_eq]
+  constructor
+  · rintro ⟨h | ⟨h, _⟩, hk⟩
+    · refine ⟨?_, hk⟩
+      by_cases hkk : e.skey ∈ ld.map Op.skey
+      · obtain ⟨el, hel, hkey⟩ := List.mem_map.mp hkk
+        have := hagree el hel e h hkey (by rw [hkey]; exact hk)
+        subst this
+        exact Or.inl hel
+      · exact Or.inr ⟨h, hkk⟩
+    · exact ⟨Or.inl h, hk⟩
+  · rintro ⟨h | ⟨h, _⟩, hk⟩
+    · refine ⟨?_, hk⟩
+      by_cases hkk : e.skey ∈ rd.map Op.skey
+      · obtain ⟨er, her, hkey⟩ := List.mem_map.mp hkk
+        have := hagree e h er her hkey.symm hk
+        subst this
+        exact Or.inl her
+      · exact Or.inr ⟨h, hkk⟩
+    · exact ⟨Or.inl h, hk⟩
+
+open Merge in
+/-- **C05, side symmetry, on the mixed domain**: if both role assignments are in the domain and both two-stage patches apply,
+    they give the same document X, both merges complete, report no conflict and give X -/
+theorem C05_model_mixed_symmetric (E : Env) (base : J) (k : String) (ld rd : List Op) (X Y : J)
+    (hm1 : mixedwise base k ld rd = true) (hm2 : mixedwise base k rd ld = true)
+    (hX : patchBothMixed base k ld rd = .ok X) (hY : patchBothMixed base k rd ld = .ok Y) :
+    X = Y ∧ ∃ ds1 ds2, decideMerge E base ld rd = .ok ds1 ∧ decideMerge E base rd ld = .ok ds2 ∧
+      applyDecisions base (ds1.map MD.toDecision) = .ok X ∧ applyDecisions base (ds2.map MD.toDecision) = .ok X ∧
+      (∀ d ∈ ds1, d.conflict = false) ∧ (∀ d ∈ ds2, d.conflict = false) := by
+  have hXY : X = Y := by
+    have hm1' := hm1
+    unfold mixedwise at hm1'
+    split at hm1'
+    · rename_i kvs xs dL dR hparts
+      obtain ⟨rfl, hk, hkL, hkR⟩ := mixedParts_spec hparts
+      simp only [Bool.and_eq_true, Bool.not_eq_true', List.all_eq_true, bne_iff_ne, ne_eq, Bool.or_eq_true, beq_iff_eq] at hm1'
+      obtain ⟨⟨⟨⟨⟨⟨⟨⟨⟨hc, hwl⟩, hwr⟩, hint⟩, haL⟩, haR⟩, hne⟩, hdis⟩, hpy⟩, hag⟩ := hm1'
+      rw [wf] at hwl hwr
+      obtain ⟨hmapL, hndL, _⟩ := wfObj_shape kvs ld [] hwl
+      obtain ⟨hmapR, hndR, _⟩ := wfObj_shape kvs rd [] hwr
+      have hcc := hc
+      simp only [J.canonical, Bool.and_eq_true] at hcc
+      have hb : SK kvs := keysSorted_sk kvs hcc.1
+      have hcl : J.canonicalList xs = true := by
+        have := canonicalKvs_mem kvs hcc.2 _ (lookupKV_mem k _ kvs hk)
+        simpa only [J.canonical] using this
+      unfold patchBothMixed at hX hY
+      simp only [bind, Except.bind] at hX hY
+      cases hL : patch (.obj kvs) ld with
+      | error e => simp [hL] at hX
+      | ok L =>
+        cases hR : patch (.obj kvs) rd with
+        | error e => simp [hR] at hY
+        | ok R =>
+          simp only [hL] at hX
+          simp only [hR] at hY
+          obtain ⟨RL, RX, hRL, hRX, hX'⟩ := mixed_two_stage kvs hb ld rd hndL hndR k xs dL dR hkL hkR hk L X hL hX
+          obtain ⟨RR, RY, hRR, hRY, hY'⟩ := mixed_two_stage kvs hb rd ld hndR hndL k xs dR dL hkR hkL hk R Y hR hY
+          have hxy := patchList_comm xs hcl dL dR (ascPatchB_spec 0 dL haL) (ascPatchB_spec 0 dR haR)
+            (fun e0 h0 e1 h1 => hdis e0 h0 e1 h1) RL RX RR RY hRL hRX hRR hRY
+          subst hxy
+          have hagree : ∀ el ∈ ld, ∀ er ∈ rd, el.skey = er.skey → el.skey ≠ k → el = er := by
+            intro el hel er her hkey hnk
+            rcases hag el hel er her with (h1 | h1) | h1
+            · exact absurd hkey h1
+            · exact absurd h1 hnk
+            · exact Op.beq_eq el er h1
+          have hp := unionDiff_swap_perm_off k ld rd hndL hndR hagree
+          have hndU2 : ((((unionDiff rd ld).filter (fun e => e.skey != k)) ++ [Op.replace k (.arr RX)]).map Op.skey).Nodup := by
+            rw [List.map_append, List.nodup_append]
+            refine ⟨?_, by simp, ?_⟩
+            · apply (List.filter_sublist.map Op.skey).nodup
+              unfold unionDiff
+              rw [List.map_append, List.nodup_append]
+              refine ⟨hndR, (List.filter_sublist.map Op.skey).nodup hndL, ?_⟩
+              intro a ha b' hb' hab
+              obtain ⟨e, he, rfl⟩ := List.mem_map.mp hb'
+              have := (List.mem_filter.mp he).2
+              simp only [Bool.not_eq_true', List.contains_eq_mem, decide_eq_false_iff_not] at this
+              exact this (hab ▸ ha)
+            · intro a ha b' hb' hab
+              simp only [List.map_cons, List.map_nil, List.mem_singleton] at hb'
+              obtain ⟨e, he, rfl⟩ := List.mem_map.mp ha
+              have := (List.mem_filter.mp he).2
+              simp only [bne_iff_ne, ne_eq] at this
+              rw [hab, hb'] at this
+              exact this rfl
+          have hY'' := patch_obj_perm kvs hb _ _ (hp.append_right [Op.replace k (.arr RX)]) hndU2 Y hY'
+          rw [hX'] at hY''
+          exact Except.ok.inj hY''
+    · cases hm1'
+  subst hXY
+  obtain ⟨ds1, h1, c1, a1, _⟩ := C06_model_mixed_all E base k ld rd X hm1 hX
+  obtain ⟨ds2, h2, c2, a2, _⟩ := C06_model_mixed_all E base k rd ld X hm2 hY
+  exact ⟨rfl, ds1, ds2, h1, h2, a1, a2, c1, c2⟩
+
 namespace C05ex
 open Merge
 def exE : Env := { O := { cmp := fun _ _ _ => .ok false, opcodes := fun _ _ => .ok [] }, cfg := defaultCfg,
